@@ -96,7 +96,6 @@ structure St (ρ : Type) where
   elemStack : List Elem := []
   depth : Nat := 0
   inSpecs : Bool := false
-  realSvg : Bool := false
   cfg : Cfg := {}
   rng : ρ
   /-- set when a construct outside the modelled domain was met -/
@@ -206,7 +205,7 @@ def svgNs : Str := cs!"http://www.w3.org/2000/svg"
 /-- `is_real_svg`: the first element is `<svg xmlns="http://www.w3.org/2000/svg">` -/
 def isRealSvg : List Node → Bool
   | [] => false
-  | .elem e _ _ :: _ => e.name == cs!"svg" && e.getAttr cs!"xmlns" == some svgNs
+  | .elem e _ _ :: _ => e.name == cs!"svg" && e.hasAttr cs!"xmlns"
   | _ :: rest => isRealSvg rest
 
 /-- only character data inside: `(all text/cdata, the text the code picks)` -/
@@ -749,13 +748,18 @@ def retry (ev : Evalr ρ) : Nat → St ρ → List Tag → List (Nat × List Ev)
 def processNodes (ev : Evalr ρ) : Nat → St ρ → Nodes → St ρ × Res
   | 0, st, _ => (st, .error .fuel)
   | fuel + 1, st, ks =>
-    if isRealSvg ks.toList then
-      (if st.elemStack.isEmpty then { st with realSvg := true } else st, .ok (rawNodes ks, none))
-    else
-      seq (retry ev fuel st (ks.toList.zipIdx.map fun (n, i) => (⟨i, n⟩ : Tag)) [] none) fun st r =>
-        (st, .ok ((sortOuts r.1).flatMap (·.2), r.2))
+    seq (retry ev fuel st (ks.toList.zipIdx.map fun (n, i) => (⟨i, n⟩ : Tag)) [] none) fun st r =>
+      (st, .ok ((sortOuts r.1).flatMap (·.2), r.2))
 
 end
+
+/-- `Transformer::transform` up to post-processing. The first component is `context.real_svg`: it is
+    decided once, from the document itself, and a real SVG document is not processed at all; a
+    namespaced `<svg>` met further in is passed through as an element by `genContainer` and has no
+    say in how its siblings or the root are treated -/
+def transformDoc (ev : Evalr ρ) (fuel : Nat) (st : St ρ) (ks : Nodes) : Bool × St ρ × Res :=
+  if isRealSvg ks.toList then (true, st, .ok (rawNodes ks, none))
+  else (false, processNodes ev fuel st ks)
 
 end Ctl
 end Svgdx
